@@ -354,6 +354,17 @@ func (w *World) orderDependentEffects(ml *mapLoop) []string {
 						continue
 					}
 				}
+				// m[k2] = v inside `for k := range m`: entries are added to the map that is being
+				// iterated — whether the new entry is visited by the same loop is left open by the
+				// language and differs from run to run
+				if ix, ok := lhs.(*ast.IndexExpr); ok && isMapType(w.Info.TypeOf(ix.X)) && ml.kind == "range over map" {
+					if rs, ok := ml.stmt.(*ast.RangeStmt); ok && types.ExprString(ast.Unparen(ix.X)) == types.ExprString(ast.Unparen(rs.X)) {
+						if ko := identObj(w, ix.Index); ko == nil || ko != ml.key {
+							eff = append(eff, fmt.Sprintf("adds entries to the map it ranges over: whether the loop also visits them is unspecified and varies between runs (%s)", w.pos(x)))
+							continue
+						}
+					}
+				}
 				// dst[name] = v where name is a local of the body that is (on some path) taken
 				// from another table (`if alias, ok := aliases[k]; ok { name = alias }`): two
 				// entries can be translated to the same name, then iteration order decides
